@@ -40,6 +40,10 @@ pub struct Case {
     /// acceptances: p = e^-factor)
     #[serde(default)]
     pub depth_factor: Option<f64>,
+    /// a convergence threshold that never ends the run (the anchors improve the score in every
+    /// loop): the schedule must not depend on whether a threshold is set
+    #[serde(default)]
+    pub convergence: Option<f64>,
 }
 
 /// allowed temperature interval [lo, hi] of inner loop l (None: nothing is required)
@@ -94,7 +98,7 @@ pub fn scripted(c: &Case) -> ScriptedCase {
         init: vec![0.; c.k],
         bounds: vec![(-1e6, 1e6); c.k],
         script: Script::Probe { d, inner: c.inner, jam: c.jam.clone() },
-        cfg: OptCfg { steps: c.total_loops.unwrap_or(c.loops).saturating_mul(c.inner).saturating_add(c.extra_steps), inner_steps: c.inner, kt_start: c.kt_start, kt_finish: c.kt_finish, kt_ratio: c.kt_ratio, max_step_size: 1e-6, seed: c.seed, convergence: if c.total_loops.is_some() { Some(1e300) } else { None }, builder_history: c.builder_history },
+        cfg: OptCfg { steps: c.total_loops.unwrap_or(c.loops).saturating_mul(c.inner).saturating_add(c.extra_steps), inner_steps: c.inner, kt_start: c.kt_start, kt_finish: c.kt_finish, kt_ratio: c.kt_ratio, max_step_size: 1e-6, seed: c.seed, convergence: if c.total_loops.is_some() { Some(1e300) } else { c.convergence }, builder_history: c.builder_history },
         via_api: c.via_api, aliases: vec![],
     }
 }
@@ -193,7 +197,7 @@ pub fn cases(tier: Tier, seed: u64) -> Vec<Case> {
     let mut out = vec![];
     let mut push = |kt_start: f64, kt_finish: Option<f64>, kt_ratio: Option<f64>, loops: u64, inner: u64, via_api: bool| {
         let i = out.len() as u64;
-        out.push(Case { kt_start, kt_finish, kt_ratio, loops, inner, k: if i % 2 == 0 { 6 } else { 16 }, seed: seed.wrapping_mul(7919).wrapping_add(i), via_api, jam: vec![], extra_steps: 0, depth: None, builder_history: None, total_loops: None, depth_factor: None });
+        out.push(Case { kt_start, kt_finish, kt_ratio, loops, inner, k: if i % 2 == 0 { 6 } else { 16 }, seed: seed.wrapping_mul(7919).wrapping_add(i), via_api, jam: vec![], extra_steps: 0, depth: None, builder_history: None, total_loops: None, depth_factor: None, convergence: None });
     };
     // ratio given (exact schedule), with and without a finishing temperature also set
     for &(s, r) in [(0.1, 0.0), (1., 0.1), (0.5, 0.5), (1., 0.9)].iter() {
@@ -214,11 +218,11 @@ pub fn cases(tier: Tier, seed: u64) -> Vec<Case> {
     for &(inner, jam_from, jam_len, r) in [(3u64, 40u64, 60u64, 0.004), (6, 30, 90, 0.004), (1, 30, 25, 0.002), (12, 20, 140, 0.003)].iter() {
         let loops = jam_from + jam_len + many / 20;
         let i = out.len() as u64;
-        out.push(Case { kt_start: 1., kt_finish: None, kt_ratio: Some(r), loops, inner: if inner < 3 { 3 } else { inner }, k: 6, seed: seed.wrapping_mul(7919).wrapping_add(i), via_api: false, jam: vec![(jam_from, jam_from + jam_len)], extra_steps: 0, depth: None, builder_history: None, total_loops: None, depth_factor: None });
+        out.push(Case { kt_start: 1., kt_finish: None, kt_ratio: Some(r), loops, inner: if inner < 3 { 3 } else { inner }, k: 6, seed: seed.wrapping_mul(7919).wrapping_add(i), via_api: false, jam: vec![(jam_from, jam_from + jam_len)], extra_steps: 0, depth: None, builder_history: None, total_loops: None, depth_factor: None, convergence: None });
     }
     let mut push = |kt_start: f64, kt_finish: Option<f64>, kt_ratio: Option<f64>, loops: u64, inner: u64, via_api: bool| {
         let i = out.len() as u64;
-        out.push(Case { kt_start, kt_finish, kt_ratio, loops, inner, k: if i % 2 == 0 { 6 } else { 16 }, seed: seed.wrapping_mul(7919).wrapping_add(i), via_api, jam: vec![], extra_steps: 0, depth: None, builder_history: None, total_loops: None, depth_factor: None });
+        out.push(Case { kt_start, kt_finish, kt_ratio, loops, inner, k: if i % 2 == 0 { 6 } else { 16 }, seed: seed.wrapping_mul(7919).wrapping_add(i), via_api, jam: vec![], extra_steps: 0, depth: None, builder_history: None, total_loops: None, depth_factor: None, convergence: None });
     };
     // finishing temperature given
     for &(s, f) in [(0.1, 1e-3), (1., 0.01), (0.5, 0.5), (1e-3, 0.1)].iter() {
@@ -233,17 +237,17 @@ pub fn cases(tier: Tier, seed: u64) -> Vec<Case> {
         for &frac in [0.999, 0.5, 0.25].iter() {
             let inner = 3 * n;
             let i = out.len() as u64;
-            out.push(Case { kt_start: s, kt_finish: Some(f), kt_ratio: None, loops: l, inner, k: 6, seed: seed.wrapping_mul(7919).wrapping_add(i), via_api: i % 2 == 0, jam: vec![], extra_steps: ((inner as f64) * frac) as u64, depth: None, builder_history: None, total_loops: None, depth_factor: None });
+            out.push(Case { kt_start: s, kt_finish: Some(f), kt_ratio: None, loops: l, inner, k: 6, seed: seed.wrapping_mul(7919).wrapping_add(i), via_api: i % 2 == 0, jam: vec![], extra_steps: ((inner as f64) * frac) as u64, depth: None, builder_history: None, total_loops: None, depth_factor: None, convergence: None });
         }
     }
     // zero temperature: no worse move is accepted however small it is
     for &d in [5e-324, 1e-300, 1e-100, 1e-20, 1e-16, 1e-12, 1e-8].iter() {
         let i = out.len() as u64;
-        out.push(Case { kt_start: 0., kt_finish: if i % 2 == 0 { Some(0.1) } else { None }, kt_ratio: if i % 3 == 0 { Some(0.5) } else { None }, loops: 3, inner: 3 * n / 2, k: 6, seed: seed.wrapping_mul(7919).wrapping_add(i), via_api: false, jam: vec![], extra_steps: 0, depth: Some(d), builder_history: None, total_loops: None, depth_factor: None });
+        out.push(Case { kt_start: 0., kt_finish: if i % 2 == 0 { Some(0.1) } else { None }, kt_ratio: if i % 3 == 0 { Some(0.5) } else { None }, loops: 3, inner: 3 * n / 2, k: 6, seed: seed.wrapping_mul(7919).wrapping_add(i), via_api: false, jam: vec![], extra_steps: 0, depth: Some(d), builder_history: None, total_loops: None, depth_factor: None, convergence: None });
     }
     let mut push = |kt_start: f64, kt_finish: Option<f64>, kt_ratio: Option<f64>, loops: u64, inner: u64, via_api: bool| {
         let i = out.len() as u64;
-        out.push(Case { kt_start, kt_finish, kt_ratio, loops, inner, k: if i % 2 == 0 { 6 } else { 16 }, seed: seed.wrapping_mul(7919).wrapping_add(i), via_api, jam: vec![], extra_steps: 0, depth: None, builder_history: None, total_loops: None, depth_factor: None });
+        out.push(Case { kt_start, kt_finish, kt_ratio, loops, inner, k: if i % 2 == 0 { 6 } else { 16 }, seed: seed.wrapping_mul(7919).wrapping_add(i), via_api, jam: vec![], extra_steps: 0, depth: None, builder_history: None, total_loops: None, depth_factor: None, convergence: None });
     };
     // neither
     push(0.3, None, None, 1, 3 * n, false);
@@ -261,11 +265,11 @@ pub fn cases(tier: Tier, seed: u64) -> Vec<Case> {
     for (j, &total) in [(1u64 << 32) + 3, 1u64 << 32, (1u64 << 32) + 1, (1u64 << 31) + 5, (1u64 << 33) + 2, 1u64 << 40, (1u64 << 32) - 1].iter().enumerate() {
         let i = out.len() as u64;
         let (s, f) = [(1., 1e-3), (0.1, 10.), (0.5, 1e-6)][j % 3];
-        out.push(Case { kt_start: s, kt_finish: Some(f), kt_ratio: None, loops: 6, inner: 3 * n / 2, k: 6, seed: seed.wrapping_mul(7919).wrapping_add(i), via_api: j % 2 == 1, jam: vec![], extra_steps: 0, depth: None, builder_history: None, total_loops: Some(total), depth_factor: None });
+        out.push(Case { kt_start: s, kt_finish: Some(f), kt_ratio: None, loops: 6, inner: 3 * n / 2, k: 6, seed: seed.wrapping_mul(7919).wrapping_add(i), via_api: j % 2 == 1, jam: vec![], extra_steps: 0, depth: None, builder_history: None, total_loops: Some(total), depth_factor: None, convergence: None });
         // and with a ratio: (1 - r)^l for the loops that run
         if j < 3 {
             let i = out.len() as u64;
-            out.push(Case { kt_start: 1., kt_finish: None, kt_ratio: Some(0.5), loops: 6, inner: 3 * n / 2, k: 6, seed: seed.wrapping_mul(7919).wrapping_add(i), via_api: false, jam: vec![], extra_steps: 0, depth: None, builder_history: None, total_loops: Some(total), depth_factor: None });
+            out.push(Case { kt_start: 1., kt_finish: None, kt_ratio: Some(0.5), loops: 6, inner: 3 * n / 2, k: 6, seed: seed.wrapping_mul(7919).wrapping_add(i), via_api: false, jam: vec![], extra_steps: 0, depth: None, builder_history: None, total_loops: Some(total), depth_factor: None, convergence: None });
         }
     }
     // heating schedules (a ratio below zero multiplies the temperature) with probes several kT
@@ -273,9 +277,21 @@ pub fn cases(tier: Tier, seed: u64) -> Vec<Case> {
     for (j, &(r, l)) in [(-9., 2u64), (-9., 3), (-99., 2), (-1., 6), (-3., 4)].iter().enumerate() {
         for &df in [4., 6.].iter() {
             let i = out.len() as u64;
-            out.push(Case { kt_start: 1e-3, kt_finish: None, kt_ratio: Some(r), loops: l, inner: 3 * n * 2, k: 6, seed: seed.wrapping_mul(7919).wrapping_add(i), via_api: j % 2 == 0, jam: vec![], extra_steps: 0, depth: None, builder_history: None, total_loops: None, depth_factor: Some(df) });
+            out.push(Case { kt_start: 1e-3, kt_finish: None, kt_ratio: Some(r), loops: l, inner: 3 * n * 2, k: 6, seed: seed.wrapping_mul(7919).wrapping_add(i), via_api: j % 2 == 0, jam: vec![], extra_steps: 0, depth: None, builder_history: None, total_loops: None, depth_factor: Some(df), convergence: None });
         }
     }
+    // with a convergence threshold that the improving anchors never let the run meet
+    let with_threshold: Vec<Case> = out
+        .iter()
+        .enumerate()
+        .filter(|(i, c)| i % 3 == 0 && c.total_loops.is_none() && c.jam.is_empty() && c.loops >= 2 && c.loops * c.inner <= 3 * n * 10)
+        .map(|(i, c)| {
+            let mut c = c.clone();
+            c.convergence = Some([0., -1., 1e-300][i % 3]);
+            c
+        })
+        .collect();
+    out.extend(with_threshold);
     // a builder that has been used before: every other configuration a second time, reached
     // through a history of earlier settings
     let again: Vec<Case> = out
@@ -293,7 +309,7 @@ pub fn cases(tier: Tier, seed: u64) -> Vec<Case> {
 }
 
 pub fn run(ctx: &Ctx) {
-    ctx.set_rule("anchor/probe/sentinel scripts whose probe depth in inner loop l is set near the temperature the requested schedule implies (p ~ 1/e); configurations: kt_ratio given (exact schedule kt_start (1-ratio)^l; also with kt_finish set at the same time), kt_finish given (allowed: a constant factor between (finish/start)^(1/(L-2)) and (finish/start)^(1/L), i.e. the last loop within one cooling step of kt_finish; cooling and heating; heating by factors 2-100 per loop with probes 4 and 6 kT deep), neither (first loop only), kt_start = 0 (every worse probe in every loop rejected); L in {1,2,3,10,50} and thousands of 3- or 6-step loops; runs asked for 2^31..2^40 loops that leave through the convergence exit after six; through the CLI parser and the builder API, on fresh builders and on builders with a history of earlier setter calls (other step counts, loop lengths, temperatures first; clones). Per window of loops the acceptance count is compared with the probability interval implied by the allowed temperature interval (Chernoff/KL bound < 1e-12 to flag); first and second halves of the loops are compared with the same interval (constancy within a loop). Non-trivial = configurations with >= 3 loops; distinct by configuration");
+    ctx.set_rule("anchor/probe/sentinel scripts whose probe depth in inner loop l is set near the temperature the requested schedule implies (p ~ 1/e); configurations: kt_ratio given (exact schedule kt_start (1-ratio)^l; also with kt_finish set at the same time), kt_finish given (allowed: a constant factor between (finish/start)^(1/(L-2)) and (finish/start)^(1/L), i.e. the last loop within one cooling step of kt_finish; cooling and heating; heating by factors 2-100 per loop with probes 4 and 6 kT deep), neither (first loop only), kt_start = 0 (every worse probe in every loop rejected); L in {1,2,3,10,50} and thousands of 3- or 6-step loops; the same schedules with a convergence threshold set that is never met; runs asked for 2^31..2^40 loops that leave through the convergence exit after six; through the CLI parser and the builder API, on fresh builders and on builders with a history of earlier setter calls (other step counts, loop lengths, temperatures first; clones). Per window of loops the acceptance count is compared with the probability interval implied by the allowed temperature interval (Chernoff/KL bound < 1e-12 to flag); first and second halves of the loops are compared with the same interval (constancy within a loop). Non-trivial = configurations with >= 3 loops; distinct by configuration");
     ctx.assume("temperature is inferred from acceptance frequencies; resolution ~1.3/sqrt(n) relative per window");
     let cs = cases(ctx.tier, ctx.seed);
     let prev = std::panic::take_hook();
